@@ -257,7 +257,7 @@ Section Eval.
           let rtb := match home with Some tid => ae tid | None => rt end in
           let frt := match home with Some _ => Some rt | None => None end in
           match eval_ss n' ce' rtb mu (Some (CC body ce frt)) None (pr ++ r) mbody with None => None
-          | Some (o, _, _) => Some (o, r, mu)
+          | Some (o, _, _) => Some (out_piece (on_now ce rt) (wrap rt o), r, mu)
           end end end end
       | SFilterBlock f args body =>
           match eval_ss n' ce rt mu k sup r body with None => None | Some (o, _, _) =>
